@@ -524,6 +524,35 @@ func (w *evictWorld) nominatedElsewhere(uid, from string) bool {
 	return false
 }
 
+// VerifC06_ReclaimThenPreempt_Thorough: (thorough tier only: about 15 minutes, explored up to the per-harness deadline) reclaim and preempt run one after the other on ONE session, as in
+// every cycle: a reclaimer of another queue first looks at the victim (whatever the outcome), then a
+// pending job of the victim's own queue goes through the preempt action. What the reclaim action
+// learnt about the victim (min-runtime verdicts are cached per session) must not leak into the
+// preempt decision: a victim evicted by the preempt action is past its PREEMPT min-runtime, preemptible
+// and of strictly lower priority.
+// BOUND: victim preemptible, preemptor's priority above the victim's, reclaimer's priority 0; 1 full node; d <- qa, qb; victim v0 (one 16 milli-cpu pod) in qb with symbolic age 0..63 h, preemptibility and int32 priority; pending p0 in qa (reclaimer) and p1 in qb (preemptor, symbolic int32 priority); reclaim min-runtimes unset or 0..63 h on d and qb, preempt min-runtimes on d and qa; symbolic quotas and fair shares
+func VerifC06_ReclaimThenPreempt_Thorough() {
+	w := actEvictWorld(evictOpts{bits: 6, nVictims: 1, victimQ: []string{"qb"}, pendingQ: "qa", sameCpu: true, fixedCpu: 16, symPrio: true, minRuntime: true,
+		morePending: 1, otherPendingQ: "qb", fixedPending: true, fixedPreemptibleVictims: true})
+	// the interesting half only: a preemptor that outranks the victim
+	vr.Assume(w.victims[0].priority < w.others[0].priority && w.pending.priority == 0)
+	reclaim.New().Execute(w.ssn)
+	afterReclaim := len(w.cache.evicts)
+	preempt.New().Execute(w.ssn)
+	vr.Observe("evictsByReclaim", afterReclaim)
+	vr.Observe("evictsByPreempt", len(w.cache.evicts)-afterReclaim)
+	v, p1 := w.victims[0], w.others[0]
+	for _, e := range w.cache.evicts[afterReclaim:] {
+		if e != string(v.tasks[0].UID) {
+			continue
+		}
+		vr.Assert(v.preempt, "C06.preempt-action-evicts-only-preemptible-workloads")
+		vr.Assert(v.priority < p1.priority, "C06.preempt-action-victims-have-strictly-lower-priority")
+		vr.Assert(v.ageH >= w.resolvedMinRuntimeH(v, false), "C06.preempt-action-respects-min-runtime")
+	}
+	vr.Cover(afterReclaim == 0 && len(w.cache.evicts) == 1, "C06.cover.preempt-evicts-after-reclaim-did-not")
+}
+
 // VerifC06_ConsolidationAction: the real consolidation action on two nodes: a running pod is moved
 // only if it belongs to a preemptible workload and the same decision re-places it on another node,
 // together with the placement of the pending job it was moved for.
